@@ -268,8 +268,20 @@ func (br *bRun) start(a *bActor, fn func()) {
 	a.gid = <-gch
 }
 
+// errCustomCause is the cause given to half of the waiters' contexts: "a cancelled context yields
+// its error" means ctx.Err() (context.Canceled), whatever cause the application attached.
+var errCustomCause = errors.New("verif: application-level cancellation cause")
+
+func waiterContext(id int) (context.Context, context.CancelFunc) {
+	if id%2 == 1 {
+		ctx, cancel := context.WithCancelCause(context.Background())
+		return ctx, func() { cancel(errCustomCause) }
+	}
+	return context.WithCancel(context.Background())
+}
+
 func (br *bRun) startWaiter(a *bActor, off, max int64, key []byte) {
-	a.ctx, a.cancel = context.WithCancel(context.Background())
+	a.ctx, a.cancel = waiterContext(a.id)
 	a.op = &cOp{Client: a.id, Kind: "consume", Off: off, Max: max}
 	if key != nil {
 		a.op.Kind = "consumebykey"
@@ -936,6 +948,118 @@ func runBScenario(cfg *RunCfg, rep *Reporter, cov *Cov, idx int, sc bScenario) {
 }
 
 // ---------------------------------------------------------------------------------------
+// read-only handles: nothing can be published through them, but the rules are the same - below
+// NextOffset returns at once, at or beyond it parks until the context ends, and after Close a wait at
+// NextOffset fails.
+
+func openBlockRO(dir string, typed bool) (blockLog, error) {
+	opts := klevdb.Options{KeyIndex: true, Rollover: 300, Readonly: true}
+	if typed {
+		l, err := klevdb.OpenTBlocking[[]byte, []byte](dir, opts, poisonCodec{}, poisonCodec{})
+		if err != nil {
+			return nil, err
+		}
+		return typedBlock{l}, nil
+	}
+	l, err := klevdb.OpenBlocking(dir, opts)
+	if err != nil {
+		return nil, err
+	}
+	return rawBlock{l}, nil
+}
+
+func runBReadonly(cfg *RunCfg, rep *Reporter, cov *Cov, idx int) {
+	typed := idx%2 == 1
+	br := &bRun{cfg: cfg, rep: rep, cov: cov, typed: typed, id: fmt.Sprintf("bro%d", idx)}
+	br.dir = filepath.Join(cfg.Scratch, br.id)
+	defer os.RemoveAll(br.dir)
+	replay := map[string]any{"phase": "readonly-handle", "index": idx, "typed": typed, "seed": cfg.Seed}
+	report := func(sig, what string) {
+		rep.Report(Violation{Property: "C18", Sig: "concmon|readonly:" + sig, What: what, Replay: replay})
+	}
+	n := 0
+	if idx%4 < 2 {
+		n = 2 + idx%3
+	}
+	if n > 0 {
+		w, err := openBlock(br.dir, typed, false)
+		if err != nil {
+			rep.Inconclusive("readonly scenario: writer open failed")
+			return
+		}
+		br.l = w
+		if _, err := br.presetPublish(n); err != nil {
+			w.Close()
+			return
+		}
+		w.Close()
+	} else {
+		os.MkdirAll(br.dir, 0o700) // an empty directory: the handle is served by a synthetic segment
+	}
+	l, err := openBlockRO(br.dir, typed)
+	if err != nil {
+		report("open-error:"+errClass(err), "read-only blocking open failed: "+errText(err))
+		return
+	}
+	br.l = l
+	br.hm = &hookMode{dyn: map[int64]*hookClient{}}
+	installHook(br.hm)
+	defer installHook(nil)
+	next := int64(n)
+	cov.Add("evaluations", 1)
+	cov.Distinct("c18", fmt.Sprintf("readonly|typed=%v|messages=%d", typed, n))
+	mk := func(cls string, off int64) *bActor {
+		a := br.newActor("waiter")
+		a.offCls, a.atNext = cls, next
+		br.startWaiter(a, off, 4, nil)
+		return a
+	}
+	if n > 0 {
+		below := mk("below", next-1)
+		if st := settle(below, 20000); st != "done" || below.op.Err != "" || len(below.op.Out) != 1 {
+			report("below-not-immediate", fmt.Sprintf("ConsumeBlocking(%d) on a read-only handle with NextOffset %d did not return the message at once: %s %s", next-1, next, st, below.op))
+			below.cancel()
+			settle(below, 20000)
+			l.Close()
+			return
+		}
+	}
+	for _, w := range []struct {
+		cls string
+		off int64
+	}{{"at", next}, {"beyond", next + 2}} {
+		a := mk(w.cls, w.off)
+		st := settle(a, 20000)
+		if !parkedInWait(st) {
+			report("not-parked:"+w.cls, fmt.Sprintf("ConsumeBlocking(%d) on a read-only handle with NextOffset %d returned (%s %s) although no Publish, Close or cancel happened", w.off, next, st, a.op))
+			a.cancel()
+			settle(a, 20000)
+			l.Close()
+			return
+		}
+		a.cancelCall.Store(nowNS())
+		a.cancelled.Store(true)
+		a.cancel()
+		if st := settle(a, 20000); st != "done" || a.op.Err != "ctx-canceled" {
+			report("cancel:wrong-result", fmt.Sprintf("a parked waiter on a read-only handle whose context was cancelled returned %s %q (%s)", a.op, a.op.ErrText, st))
+			l.Close()
+			return
+		}
+		cov.Add("c18.readonly_parked_then_cancelled", 1)
+	}
+	if err := l.Close(); err != nil {
+		report("close-error", "Close of a read-only blocking handle failed: "+errText(err))
+		return
+	}
+	late := mk("at-after-close", next)
+	if st := settle(late, 20000); st != "done" || late.op.Err == "" {
+		report("after-close", fmt.Sprintf("a wait at NextOffset that starts after Close of a read-only handle did not fail: %s %s", st, late.op))
+		late.cancel()
+		settle(late, 20000)
+	}
+}
+
+// ---------------------------------------------------------------------------------------
 // perturb phase
 
 func runBPerturb(cfg *RunCfg, rep *Reporter, cov *Cov, idx int) {
@@ -993,7 +1117,7 @@ func runBPerturb(cfg *RunCfg, rep *Reporter, cov *Cov, idx int) {
 		if r.Chance(0.3) {
 			key = []byte("a")
 		}
-		a.ctx, a.cancel = context.WithCancel(context.Background())
+		a.ctx, a.cancel = waiterContext(a.id)
 		a.op = &cOp{Client: a.id, Kind: "consume", Off: off, Max: int64(1 + r.Intn(4)), Key: key}
 		if key != nil {
 			a.op.Kind = "consumebykey"
@@ -1173,6 +1297,15 @@ func runC18(cfg *RunCfg, rep *Reporter, cov *Cov, ev *Evidence) {
 	for i, sc := range scs {
 		if mine(cfg, i) {
 			runBScenario(cfg, rep, cov, i, sc)
+		}
+	}
+	nro := 24
+	if cfg.Tier == "thorough" {
+		nro = 240
+	}
+	for i := 0; i < nro; i++ {
+		if mine(cfg, i) {
+			runBReadonly(cfg, rep, cov, i)
 		}
 	}
 	nh := 1200
